@@ -1,2 +1,2 @@
 #include "x.emb.h"
-int main(){ unsigned char b[1]={1}; auto v=emboss_generated_code::MakeStorageView(b,1); return v.Ok() ? 0 : 1; }
+int main(){ unsigned char b[1]={1}; auto v=emboss_generated_code::MakeDevView(b,1); return v.Ok() ? 0 : 1; }
